@@ -188,9 +188,8 @@ def classify_exc(exc, case, res):
         return "ref_urlparse_crash"
     if typ == "OSError" and site in ("__init__.py:_build_api", "__init__.py:_build_models") and exc[3].startswith("[Errno 36]"):
         return "name_too_long_oserror"
-    if typ == "UndefinedError" and site == "templates/model.py.jinja:template" and "has no attribute 'transform_multipart'" in exc[3] \
-            and b"const" in raw_bytes(case) and b"multipart/form-data" in raw_bytes(case):
-        return "const_multipart_crash"
+    # const_multipart_crash (UndefinedError 'transform_multipart' @ templates/model.py.jinja) was repaired in /repo 6f2d009: no
+    # classifier any more, a recurrence is an unlisted crash = VIOLATION; its witness stays below as a regression input
     return None
 
 
@@ -566,7 +565,7 @@ def run(run, tier, replay=None):
     cases.append(doccase(nid("w"), "witness:default_nonfinite_crash", S({"I": {"type": "integer", "default": "inf"}})))
     cases.append(doccase(nid("w"), "witness:merge_default_crash", S({"P": {"type": "object", "properties": {"a": {"type": "integer"}}}, "Q": {"type": "object", "properties": {"a": {"type": "number", "default": "inf"}}},
                                                                     "C": {"allOf": [{"$ref": R + "P"}, {"$ref": R + "Q"}]}})))
-    cases.append(doccase(nid("w"), "witness:const_multipart_crash", {"openapi": "3.1.0", "info": {"title": "t", "version": "1"}, "paths": {"/u": {"post": {
+    cases.append(doccase(nid("w"), "regression:const_multipart_crash", {"openapi": "3.1.0", "info": {"title": "t", "version": "1"}, "paths": {"/u": {"post": {
         "requestBody": {"content": {"multipart/form-data": {"schema": {"type": "object", "properties": {"p": {"const": "x"}}}}}}, "responses": {"200": {"description": "ok"}}}}}}))
     cases.append(hexcase(nid("w"), "witness:scalar_document_crash", b"5", ".json"))
     cases.append(hexcase(nid("w"), "witness:load_depth_crash", b"[" * 100000, ".json"))
